@@ -3,7 +3,6 @@ import dataclasses
 import functools
 import inspect
 import warnings
-from copy import deepcopy
 from dataclasses import dataclass, field
 from functools import partial
 from threading import Lock, get_ident
@@ -279,6 +278,7 @@ class ExecNode:
     def _conf_to_values(self, conf: Dict[str, Any]) -> Dict[str, Any]:
         values = dataclasses.asdict(self)
         # copy the values of ExecNode that are also dataclass
+        values["exec_function"] = self.exec_function
         values["args"] = self.args
         values["kwargs"] = self.kwargs
         values["active"] = self.active
@@ -405,8 +405,8 @@ class LazyExecNode(ExecNode, Generic[P, RVXN]):
         id_ = _lazy_xn_id(self.id, count_occurrences(self.id, exec_nodes))
         # 1.1 Construct a new LazyExecNode corresponding to the current call
         values = dataclasses.asdict(self)
-        # force deepcopying instead of the default behavior of asdict: recursively apply asdict to dataclasses!
-        values["exec_function"] = deepcopy(self.exec_function)
+        # asdict deep copies: the callable of the user must stay the one the user passed (a bound method keeps its object)
+        values["exec_function"] = self.exec_function
         values["id_"] = id_
 
         # 2. Make the corresponding ArgExecNodes that corresponds to the Arguments
